@@ -234,8 +234,8 @@ def run_shard(desc):
         judge([np.array(u) for u in ind.ubis], "repeated-search[%s]" % mode, case2)
         sh.evaluations += 1
         sh.nontrivial += 1
-    # (b2) the notebook driver indexing.do_index: peaks selected by ring (foridx = all rings), orientations generated from the two rings of
-    # highest multiplicity, looping over (fraction, hkl_tol) on one indexer; with and without an explicit unitcell object
+    # (b2) the notebook driver indexing.do_index: peaks selected by ring (foridx = all rings), orientations generated from all ring pairs,
+    # looping over (fraction, hkl_tol) on one indexer; with and without an explicit unitcell object
     import io, contextlib
     from ImageD11 import columnfile as cfm2
     for with_uc in (False, True):
@@ -252,7 +252,7 @@ def run_shard(desc):
         case2 = {"lattice": li, "cell": cell, "sym": sym, "ngrains": ng, "data": "do_index:" + ("unitcell given" if with_uc else "cell from parameters"), "seed": seed_of()}
         try:
             with contextlib.redirect_stdout(io.StringIO()):
-                grains_found, ind = indexing.do_index(cf, dstol=0.005, hkl_tols=(0.01, 0.02), fracs=(0.9, 0.6), forgen=top2, foridx=list(range(nr)), max_grains=100,
+                grains_found, ind = indexing.do_index(cf, dstol=0.005, hkl_tols=(0.01, 0.02), fracs=(0.9, 0.6), forgen=list(range(nr)), foridx=list(range(nr)), max_grains=100,
                                                       **({"unitcell": ucm.unitcell(cell, sym)} if with_uc else {}))
         except Exception as e:
             sh.violation("do_index:raises", case2, {"error": "%s: %s" % (type(e).__name__, str(e)[:200])})
@@ -282,7 +282,20 @@ def run_shard(desc):
             rids = [r_ for r_ in rids_fine if r_ < len(uc.ringds)]
             if rids:
                 ind.score_all_pairs(rings_to_use=rids)
-        judge([np.array(u) for u in ind.ubis], "shared-unitcell[coarse then fine ring table]", case2)
+        # a search restricted to two rings need not find every grain (the property promises completeness for all ring pairs); what it
+        # finds must not depend on what the unitcell object was used for before: the reference is the same search with a fresh object
+        ind0 = indexing.indexer(unitcell=ucm.unitcell(cell, sym), gv=allgv.copy(), cosine_tol=0.002, minpks=int(0.5 * nref), hkl_tol=0.02, ds_tol=0.005, wavelength=0.3,
+                                uniqueness=0.5, max_grains=100)
+        ind0.assigntorings()
+        ind0.score_all_pairs(rings_to_use=[r_ for r_ in rids_fine if r_ < len(ind0.unitcell.ringds)])
+        got_, ref_ = [np.array(u) for u in ind.ubis], [np.array(u) for u in ind0.ubis]
+        if len(got_) != len(ref_) or any(sum(1 for v in got_ if O.lattice_equivalent(u, v, tol=0.02)) != 1 for u in ref_):
+            sh.violation("shared-unitcell[coarse then fine ring table]:result-differs-from-the-same-search-with-a-fresh-unitcell", case2,
+                         {"reported": len(got_), "reported_with_fresh_unitcell": len(ref_)})
+        for a, b in itertools.combinations(range(len(got_)), 2):
+            if O.lattice_equivalent(got_[a], got_[b], tol=0.02):
+                sh.violation("shared-unitcell[coarse then fine ring table]:same-lattice-reported-twice", case2, {"reported": len(got_)})
+                break
         sh.evaluations += 1
         sh.nontrivial += 1
     sh.sample(dict(case, reflections_per_grain=nref, found=len(found)), limit=1)
